@@ -54,6 +54,7 @@ pub fn to_consts(consts: HashMap<String, HashMap<String, garble_lang::literal::L
 }
 
 pub fn compile(src: &str, cfg: Config, consts: HashMap<String, HashMap<String, garble_lang::literal::Literal>>) -> CompileOutcome {
+    crate::common::set_context(src);
     let consts = to_consts(consts);
     let opts = CompileOptions {
         circuit_kind: if cfg.register { CircuitKind::Register } else { CircuitKind::Ssa },
